@@ -51,13 +51,13 @@ RECURSIVE Splits(_, _)      \* all ways to give k shots to the outcomes in os (s
 Splits(k, n) == IF n = 1 THEN {<<k>>} ELSE UNION { { <<a>> \o r : r \in Splits(k - a, n - 1) } : a \in 0..k }
 MeasSubs(b) ==
   IF shots = NoneShots
-  THEN { << [o |-> <<0>>, k |-> 0, wn |-> 1, wd |-> 2, sn |-> 1], [o |-> <<1>>, k |-> 0, wn |-> 1, wd |-> 2, sn |-> 1] >>,
-         << [o |-> <<0>>, k |-> 0, wn |-> 1, wd |-> 4, sn |-> 1], [o |-> <<1>>, k |-> 0, wn |-> 3, wd |-> 4, sn |-> 1] >>,
-         << [o |-> <<1>>, k |-> 0, wn |-> 1, wd |-> 1, sn |-> 1] >> }
+  THEN { << [o |-> <<0>>, k |-> 0, wn |-> 1, wd |-> 2, sn |-> 1, sid |-> 0], [o |-> <<1>>, k |-> 0, wn |-> 1, wd |-> 2, sn |-> 1, sid |-> 0] >>,
+         << [o |-> <<0>>, k |-> 0, wn |-> 1, wd |-> 4, sn |-> 1, sid |-> 0], [o |-> <<1>>, k |-> 0, wn |-> 3, wd |-> 4, sn |-> 1, sid |-> 0] >>,
+         << [o |-> <<1>>, k |-> 0, wn |-> 1, wd |-> 1, sn |-> 1, sid |-> 0] >> }
   ELSE { LET nz == SelectSeq(<<1, 2>>, LAMBDA j : sp[j] > 0) IN
-         [i \in 1..Len(nz) |-> [o |-> <<nz[i] - 1>>, k |-> sp[nz[i]], wn |-> 1, wd |-> 1, sn |-> 1]]
+         [i \in 1..Len(nz) |-> [o |-> <<nz[i] - 1>>, k |-> sp[nz[i]], wn |-> 1, wd |-> 1, sn |-> 1, sid |-> 0]]
          : sp \in Splits(b.k, 2) }
-GateSubs(b) == { << [o |-> <<>>, k |-> b.k, wn |-> b.wn, wd |-> b.wd, sn |-> 1] >> }
+GateSubs(b) == { << [o |-> <<>>, k |-> b.k, wn |-> b.wn, wd |-> b.wd, sn |-> 1, sid |-> 0] >> }
 MergeOf(b, s) == [o |-> b.o \o s.o,
                   k |-> (IF Cur.kind = "meas" THEN s.k ELSE b.k),
                   wn |-> (IF Cur.kind = "meas" THEN b.wn * s.wn ELSE b.wn),
